@@ -25,6 +25,13 @@ def main():
     if st:
         print("refusing: /repo has local changes"); return 2
     bad = 0
+    if not filt:
+        # an audited entry that nothing uses can mask a changed site through the rename pass of the matching (DESIGN 11.2)
+        r = sh("python3 tools_stale.py", cwd=VERIF)
+        print("%s no stale audited entries on the unchanged tree: %s" % ("ok  " if r.returncode == 0 else "FAIL", r.stdout.strip().splitlines()[-1]))
+        if r.returncode != 0:
+            bad += 1
+            print("\n".join("      " + l for l in r.stdout.splitlines()[:12]))
     for name, exps in sorted(expect.items()):
         if filt and not any(f in name for f in filt):
             continue
